@@ -35,6 +35,8 @@
 //   opened-path-differs : raw_start opened something else than the URI minus an
 //        initial "file://"                                          (C14)
 #define _GNU_SOURCE
+#include <sys/prctl.h>
+#include <signal.h>
 #include "device/hal/storage.h"
 #include "device/hal/device.manager.h"
 #include "device/kit/driver.h"
@@ -671,6 +673,7 @@ int main(int argc, char** argv)
         fflush(stdout);
         pid_t pid = fork();
         if (pid == 0) {
+            prctl(PR_SET_PDEATHSIG, SIGKILL);
             struct rlimit rl = { 1 << 20, 1 << 20 };   // 1 MiB of stack: run-away recursion fails fast
             setrlimit(RLIMIT_STACK, &rl);
             if (chdir(dir)) _exit(3);
